@@ -126,10 +126,11 @@ theorem C18_delete_objects_refines_partial (H : Hashes) (dl : Nat) {s : State} (
     abs (step H dl s (.deleteObjects b keys)).1 = (StoreSpec.step H (abs s) (.deleteObjects b keys)).1 ∧
     Inv (step H dl s (.deleteObjects b keys)).1 := deleteObjects_refines H dl hi hg
 
-/-- copy_object: the destination becomes the source's content, metadata and checksums; an object copied onto itself
-    stays as it is. Partial — excluded: a destination metadata file the source lacks (fs:stale-metadata-after-copy),
-    differing recorded checksums (fs:stale-checksum-after-copy); a missing source bucket is `NoSuchBucket` on both
-    sides (cc244fc) -/
+/-- copy_object: the destination becomes the source's content, metadata and checksums — whatever metadata or checksums the
+    object it replaces had: they are replaced by the source's, or removed when the source has none (aa68bb7; before:
+    fs:stale-metadata-after-copy, fs:stale-checksum-after-copy); an object copied onto itself stays as it is; a missing
+    source bucket is `NoSuchBucket` on both sides (cc244fc). Partial — excluded only: a directory left behind at either path
+    (fs:leftover-directory), non-canonical keys, over-long side-file names (fs:long-key-internal-error) -/
 theorem C18_copy_refines_partial (H : Hashes) (dl : Nat) {s : State} (hi : Inv s) {sb sk db dk : Bytes}
     (hg : CopyOk s sb sk db dk) :
     (step H dl s (.copyObject sb sk db dk)).2 = (StoreSpec.step H (abs s) (.copyObject sb sk db dk)).2 ∧
@@ -370,8 +371,13 @@ example : Good (run H0 4096 {} (demo.take 3)).1 (.deleteBucket bka) ∧
 /-- a ranged part copy `bytes=1-3` from an existing object into the owner's upload -/
 example : UploadPartCopyOk (run H0 4096 {} (demo.take 23)).1 bka kX (some 1) 2 bka kDE
     (some [98, 121, 116, 101, 115, 61, 49, 45, 51]) := by decide
-/-- … and they do exclude the recorded deviations: a copy onto an object that has a metadata file from a source without -/
-example : ¬ CopyOk (run H0 4096 {} (demo.take 5)).1 bka kA bka kDE := by decide
+/-- a copy onto an object that has a metadata file, from a source without one, is inside `CopyOk` (aa68bb7; it was the
+    excluded region fs:stale-metadata-after-copy), and the object read afterwards has no metadata -/
+example : CopyOk (run H0 4096 {} (demo.take 5)).1 bka kA bka kDE ∧
+    (run H0 4096 {} (demo.take 5 ++ [.copyObject bka kA bka kDE, .getObject bka kDE none])).2.getLast? =
+      some (.get [] 0 none (some (etagOf H0 [])) [] {}) := by decide
+/-- … and they do exclude the recorded deviations: a key that is not in canonical form (fs:key-normalised) -/
+example : ¬ CopyOk (run H0 4096 {} (demo.take 5)).1 bka kA bka [100, 47, 47, 101] := by decide
 /-- part numbers outside 1..10000 are inside `Good` for upload_part and upload_part_copy (and refused), and so are all five
     upload operations on an upload id that was never issued or is no UUID -/
 example : Good (run H0 4096 {} (demo.take 23)).1 (.uploadPart alice bka kX (some 1) 0 [1]) ∧
